@@ -1279,6 +1279,27 @@ class CallMixin:
                     if self.truthy(t, "filter") == keep_true:
                         out_f.items.append(x)
                 return out_f
+        if name == "next" and a and isinstance(a[0], PyList) and getattr(a[0], "_gen", False):
+            gq = a[0]
+            if getattr(gq, "_lazy", None) is not None:
+                self.force_lazy(gq)
+            if not gq.loop_parts:
+                # a generator over known items hands out the next one it still holds
+                if gq._pos < len(gq.items):
+                    gq._pos += 1
+                    return gq.items[gq._pos - 1]
+                if len(a) >= 2:
+                    return a[1]
+                self.may_raise("builtins.StopIteration", "next(<exhausted generator>)", definite=True)
+                raise _Raise(self.make_exc("builtins.StopIteration"), self.cur_where)
+            # a generator over an unknown number of items: one of its elements; the known lower bound of what it still holds shrinks
+            left = getattr(gq, "_minextra", 0) + max(0, len(gq.items) - getattr(gq, "_pos", 0))
+            if left >= 1:
+                if getattr(gq, "_minextra", 0) >= 1:
+                    gq._minextra -= 1
+            elif len(a) < 2:
+                self.may_raise("builtins.StopIteration", f"next({_describe(gq)[:60]})")
+            return self._elem_of_pylist(gq)
         if name == "next":
             v = a[0] if a else NONE
             if isinstance(v, PyList) and not v.loop_parts and getattr(v, "created_in", None) is not None:
@@ -1411,6 +1432,10 @@ class CallMixin:
         return e if e is not None else Sym("noelem")
 
     def any_all(self, name: str, seq: V, module, node) -> V:
+        if getattr(seq, "_lazy", None) is not None:
+            r = self.lazy_any_all(name, seq)
+            if r is not None:
+                return r
         items = self.concrete_items(seq)
         if items is not None:
             for it in items:
